@@ -364,7 +364,7 @@ fn menu(tier: Tier) -> Vec<Attack> {
         rs.into_iter().map(|r| (port(VICTIM, CH_REQ), wincode::serialize(&r).unwrap())).collect()
     }));
     // ---- client transactions
-    for (tname, sizes, count) in [("empty-and-max", vec![0usize, 512], 4usize), ("oversize-513", vec![513], 4), ("datagram-max", vec![1480], 40), ("flood-large", vec![1400, 1480, 700], 120)] {
+    for (tname, sizes, count) in [("empty-and-max", vec![0usize, 512], 4usize), ("oversize-513", vec![513], 4), ("datagram-max", vec![1480], 40), ("flood-large", vec![1400, 1480, 700], 120), ("flood-of-one-byte-transactions", vec![1], 3000), ("flood-of-empty-transactions", vec![0], 4000)] {
         add(&format!("transactions:{tname}"), "transaction", Box::new(move |_s: &Snap| {
             (0..count).map(|i| (port(VICTIM, CH_TX), wincode::serialize(&Transaction(vec![i as u8; sizes[i % sizes.len()]])).unwrap())).collect()
         }));
@@ -697,7 +697,7 @@ pub fn run(tier: Tier) -> i32 {
         "evaluations": evals.load(std::sync::atomic::Ordering::Relaxed) + udp_cases,
         "distinct_nontrivial": jobs.len() + 1 + udp_cases,
         "udp_interface_datagrams": udp_cases,
-        "rule": "4 real Alpenglow nodes + 1 attacker validator (19% stake, own leader windows) in virtual time; each hostile item of the menu (attacker-signed votes at edge slots incl. u64::MAX and the 2-epoch boundary, slashable pairs, unknown signers, replayed and mutated certificates, validly signed malformed blocks for the attacker's own next window and for a far-future window, contradictory last flags in both orders, conflicting slices, equivocation in the last window of the slot space, slice index 1023, raw slices with odd / zero / over-long / mixed shard sizes and non-codeword coding shreds under a validly signed root, tag-flipped / corrupted genuine shreds, shreds for the victim's own window, repair requests with unknown senders and boundary indices, unsolicited / mismatched repair responses, transactions of 0/512/513/1480 bytes and floods, garbage on all five interfaces) is injected alone at each phase (thorough: also ordered pairs across classes), plus the scripted hand-over equivocation of the attacker as previous leader; afterwards no task may have panicked and the victim must still vote, answer repair requests and finalize like the undisturbed run; every (item, phase) run is distinct and non-trivial; in addition the real UdpNetwork receive path (recvmmsg) on the loopback device gets datagrams of 23 sizes from 0 to 65000 bytes (around the 1500-byte receive buffer in particular) x 3 fill patterns between two honest votes, both of which must still be delivered",
+        "rule": "4 real Alpenglow nodes + 1 attacker validator (19% stake, own leader windows) in virtual time; each hostile item of the menu (attacker-signed votes at edge slots incl. u64::MAX and the 2-epoch boundary, slashable pairs, unknown signers, replayed and mutated certificates, validly signed malformed blocks for the attacker's own next window and for a far-future window, contradictory last flags in both orders, conflicting slices, equivocation in the last window of the slot space, slice index 1023, raw slices with odd / zero / over-long / mixed shard sizes and non-codeword coding shreds under a validly signed root, tag-flipped / corrupted genuine shreds, shreds for the victim's own window, repair requests with unknown senders and boundary indices, unsolicited / mismatched repair responses, transactions of 0/512/513/1480 bytes, floods of large ones and floods of thousands of 0/1-byte ones, garbage on all five interfaces) is injected alone at each phase (thorough: also ordered pairs across classes), plus the scripted hand-over equivocation of the attacker as previous leader; afterwards no task may have panicked and the victim must still vote, answer repair requests and finalize like the undisturbed run; every (item, phase) run is distinct and non-trivial; in addition the real UdpNetwork receive path (recvmmsg) on the loopback device gets datagrams of 23 sizes from 0 to 65000 bytes (around the 1500-byte receive buffer in particular) x 3 fill patterns between two honest votes, both of which must still be delivered",
         "exhaustive": true,
         "menu_items": attacks.len(),
         "phases_ms": phases,
